@@ -16,7 +16,7 @@ sys.path.insert(0, HERE)
 import core  # noqa: E402  (sets sys.path for bigtree)
 
 STD_AXIOMS = {"propext", "Classical.choice", "Quot.sound"}
-FORBIDDEN = re.compile(r"\b(sorry|admit|native_decide|bv_decide|implemented_by)\b|^\s*axiom\s|\bunsafe\s|maxHeartbeats\s+0\b", re.M)
+FORBIDDEN = re.compile(r"(?<![.\w])(sorry|admit|native_decide|bv_decide|implemented_by)\b|^\s*axiom\s|(?<![.\w])unsafe\s|maxHeartbeats\s+0\b", re.M)
 TRUSTED_BASE = [
     "Lean 4.33.0 kernel (leanchecker re-check in the thorough tier)",
     "axioms: at most propext, Classical.choice, Quot.sound (audited per theorem by #print axioms on every run)",
@@ -45,20 +45,25 @@ def strip_comments(src: str) -> str:
     return re.sub(r"--.*", "", src)
 
 
-def lean_sources():
-    out = []
-    for base, _dirs, files in os.walk(LEAN):
-        if ".lake" in base:
+def lean_sources(roots):
+    """project files in the import closure of the given module names"""
+    seen, todo = {}, list(roots)
+    while todo:
+        m = todo.pop()
+        if m in seen:
             continue
-        for f in files:
-            if f.endswith(".lean"):
-                out.append(os.path.join(base, f))
-    return sorted(out)
+        path = os.path.join(LEAN, *m.split(".")) + ".lean"
+        if not os.path.exists(path):
+            continue
+        seen[m] = path
+        for imp in re.findall(r"^\s*(?:public\s+)?import\s+(\S+)", open(path, encoding="utf-8").read(), re.M):
+            todo.append(imp)
+    return sorted(seen.values())
 
 
-def grep_forbidden():
+def grep_forbidden(roots):
     hits = []
-    for p in lean_sources():
+    for p in lean_sources(roots):
         for m in FORBIDDEN.finditer(strip_comments(open(p, encoding="utf-8").read())):
             hits.append(f"{os.path.relpath(p, LEAN)}: {m.group(0).strip()}")
     return hits
@@ -218,7 +223,7 @@ def main():
     # 2. audit
     theorems = list(mod.THEOREMS)
     axioms, audit_log = ({th: None for th in theorems}, "")
-    forbidden = grep_forbidden()
+    forbidden = grep_forbidden(imports + ["Main." + handler])
     if build_ok:
         axioms, audit_log = run_audit(prop, theorems, imports)
     discharged = [th for th in theorems if axioms.get(th) is not None and set(axioms[th]) <= STD_AXIOMS]
